@@ -514,6 +514,12 @@ def run_specs(chk, F, specs, floor_n):
                 build_ts_jobs(chk, F, inst, spec, key, where, jobs, ctx)
             else:
                 build_alg_jobs(chk, F, inst, spec, key, where, jobs, ctx)
+            if key in ctx and spec.get("iterators") != "ignore":
+                its = sorted({(b["term"]["func"].get("fn", {}).get("method") or "") for b in inst["blocks"]
+                              if b.get("term") and b["term"].get("k") == "call" and (b["term"]["func"].get("fn", {}).get("trait") or "").startswith("core::iter::")
+                              and (b["term"]["func"].get("fn", {}).get("method") or "") in ("next", "next_back", "nth", "step_by")})
+                if its:
+                    ctx[key]["unmodelled"] = "the function drives a loop with an iterator (%s), which the path summaries do not model" % ", ".join(its)
             for j_ in jobs[before_:]:
                 if spec.get("subs"):
                     j_["subs"] = spec["subs"]          # domain of the parameters made explicit (e.g. N = K + n + s, s > 0)
@@ -531,6 +537,20 @@ def run_specs(chk, F, specs, floor_n):
     chk.evaluations += len(jobs)
     ndec = 0
     for key, c in sorted(ctx.items()):
+        um = c.get("unmodelled")
+        if um:
+            # the implementation uses a construct the summaries do not model (an iterator-driven loop): what the comparison finds is then
+            # a statement about the model, not about the code — reported as not decided, never as a violation
+            real_violation = chk.violation
+
+            def soft(rule, key_, what, where=None, detail=None, _um=um):
+                chk.unproved_note(rule, key_, "not decided (%s): %s" % (_um, what[:300]), where)
+            chk.violation = soft
+            try:
+                ndec += judge_ts(chk, key, c, res) if c["kind"] == "ts" else judge(chk, key, c, res)
+            finally:
+                chk.violation = real_violation
+            continue
         ndec += judge_ts(chk, key, c, res) if c["kind"] == "ts" else judge(chk, key, c, res)
     chk.floor("functions judged (decided, or explicitly reported as not decided)", ndec + sum(1 for u_ in chk.unproved if u_["rule"] in ("algorithm", "constructor")), floor_n)
 
